@@ -9,6 +9,8 @@
 #include <fcppt/container/bitfield/object_impl.hpp>
 #include <fcppt/config/external_begin.hpp>
 #include <algorithm>
+#include <iterator>
+#include <limits>
 #include <fcppt/config/external_end.hpp>
 
 namespace fcppt
@@ -105,7 +107,22 @@ operator~(fcppt::container::bitfield::object<ElementType, InternalType> _field)
       _field.array().begin(),
       _field.array().end(),
       _field.array().begin(),
-      [](InternalType const _arg) { return ~_arg; });
+      [](InternalType const _arg) { return static_cast<InternalType>(~_arg); });
+
+  // The bits of the last word that do not belong to an enumerator must stay
+  // zero: comparison and hash look at whole words.
+  constexpr unsigned long long const used_bits{
+      static_cast<unsigned long long>(
+          fcppt::container::bitfield::object<ElementType, InternalType>::static_size::value) %
+      static_cast<unsigned long long>(std::numeric_limits<InternalType>::digits)};
+
+  if constexpr (used_bits != 0ULL)
+  {
+    InternalType &last{*std::prev(_field.array().end())};
+
+    last = static_cast<InternalType>(
+        last & static_cast<InternalType>((static_cast<InternalType>(1U) << used_bits) - 1U));
+  }
 
   return _field;
 }
